@@ -18,8 +18,9 @@ def experiment_frame_spec(draw, purpose):
   scen = draw(st.sampled_from(['fixed', 'variable'] * 3 + (['ctl_test_only', 'pre_only', 'trt_always_on', 'un_pre_only'] if purpose == 'c07' else ['trt_always_on']))) if purpose in ('c07', 'c18') else None
   min_pre = 8 if purpose == 'c19' else (10 if (purpose == 'c07' and scen == 'variable') else 3)
   n_pre = draw(st.one_of(st.integers(min_pre, min_pre + 3), st.integers(min_pre, 40), st.integers(min_pre, 40))
-               if purpose != 'c06' else
-               st.one_of(st.integers(min_pre, min_pre + 3), st.integers(min_pre, 40), st.integers(min_pre, 40), st.integers(85, 130)))
+               if purpose == 'c19' else
+               st.one_of(st.integers(min_pre, min_pre + 3), st.integers(min_pre, 40), st.integers(min_pre, 40), st.integers(min_pre, 40),
+                         st.integers(85, 160)))
   n_test = draw(st.one_of(st.integers(1, 3), st.integers(1, 20)))
   n_cool = draw(st.integers(1 if purpose == 'c18' else 0, 10))
   want_un = purpose in ('c06', 'c18') and draw(st.booleans())
@@ -60,7 +61,9 @@ def experiment_frame_spec(draw, purpose):
       'dup_index': draw(st.sampled_from([0, 0, 0, 2, 5])),
       'int_values': draw(st.integers(0, 4)) == 0,
       'int_scale': draw(st.sampled_from([1, 1, 10 ** 6])),          # whole units, or e.g. revenue in micros (int64 totals > 2^31)
-      'nan_extra_col': draw(st.integers(0, 3)) == 0,                # a secondary metric column with missing values
+      'nan_extra_col': draw(st.integers(0, 3)) == 0,
+      # the metrics recorded in another unit (millions ... micro-units): exact powers of two
+      'unit_k': draw(st.sampled_from([0, 0, 0, 0, 0, -24, -12, 20])),                # a secondary metric column with missing values
       # excluded days (period label -1) inside the pre-test / test / cooldown span, e.g. a holiday taken out of the analysis
       'holes': sorted(set(draw(st.lists(st.integers(0, N - 1), max_size=3)))) if (purpose in ('c06', 'c07', 'c18') and draw(st.integers(0, 3)) == 0) else [],
       'ctl_cool_cost': draw(st.sampled_from([0, 0, 3, 15])),
@@ -69,6 +72,8 @@ def experiment_frame_spec(draw, purpose):
   if purpose == 'c19':
     # excluded geos with a longer history than the assigned ones: days on which neither group has a row
     spec['un_hist'] = draw(st.sampled_from([0, 0, 3, 7]))
+    # the date column as time stamps (default), ISO strings, datetime.date objects or integer day numbers
+    spec['date_kind'] = draw(st.sampled_from([None, None, None, 'iso', 'date', 'int']))
     spec['outlier'] = ({'pos': draw(st.integers(0, N - 1)), 'amount': draw(st.sampled_from([50, 200, 500])),
                         'geo': draw(st.integers(0, len(geos) - 1))} if draw(st.booleans()) else None)
   # names / labels
@@ -207,6 +212,11 @@ def materialise(spec, drop_unassigned=False, permute=True, split_first_treatment
       v = np.floor(v) * spec.get('int_scale', 1)
       if c is not None and spec['cost']['scenario'] in ('fixed', 'variable'):
         c = np.floor(c)
+    uk = spec.get('unit_k', 0)
+    if uk and not spec.get('int_values'):
+      v = v * (2.0 ** uk)
+      if c is not None:
+        c = c * (2.0 ** uk)
     if g['g'] == 'c':
       glabel = lab['group_control']
       X += v
@@ -259,6 +269,11 @@ def materialise(spec, drop_unassigned=False, permute=True, split_first_treatment
     # integer-typed measurements (whole units; the arrays were floored before the totals were accumulated)
     for k in (names['key_response'],) + ((names['key_cost'],) if (has_cost and spec['cost']['scenario'] in ('fixed', 'variable')) else ()):
       df[k] = df[k].astype('int64')
+  dk = spec.get('date_kind')
+  if dk:
+    col = df[names['key_date']]
+    conv = {'iso': lambda t: t.strftime('%Y-%m-%d'), 'date': lambda t: t.date(), 'int': lambda t: int(t.toordinal())}[dk]
+    df[names['key_date']] = pd.Series([conv(t) for t in col], index=df.index, dtype=(None if dk == 'int' else object))
   if spec.get('nan_extra_col'):
     extra = np.arange(len(df), dtype=float)
     extra[::3] = np.nan
